@@ -532,6 +532,10 @@ fn run_case(ctx: &CaseCtx, stats: &mut Stats, out: &mut Vec<Violation>, harness:
             out.push(v);
         }
     };
+    // C16: discriminating power of the minimal printing (single-rule definitions only)
+    if entry.variants[0].0.starts_with("print: minimal") && !lead.named && lead.n_rules() == 1 {
+        c16_discrimination(lead, &inputs_v, stats, harness, entry);
+    }
     let logs_all: Vec<bool> = specs.iter().map(all_rules_log).collect();
     let mut shape_done = false;
 
@@ -764,6 +768,87 @@ fn make_iter_lexer<'b>(fac: &Factory, which: usize, s: &'b str, counter: &'b Cel
             },
             fresh_state(n),
         ),
+    }
+}
+
+/// Would a wrong grammar read the minimal printing of this tree as a different language? Counts,
+/// per wrong grammar, the definitions for which some input of this run separates the two readings
+/// (or for which the wrong reading is not even a valid definition).
+fn c16_discrimination(spec: &Spec, inputs_v: &[Vec<char>], stats: &mut Stats, harness: &mut Vec<String>, entry: &CaseEntry) {
+    use vmodel::altparse::{parse, Grammar, WRONG};
+    use vmodel::class::{is_class_expr, Env};
+    use vmodel::print::{Paren, RePrinter};
+    let rule = match spec.all_rules().next() {
+        Some((_, r)) => r.clone(),
+        None => return,
+    };
+    let env = Env::new();
+    let text = RePrinter::new(Paren::Minimal, 0).print(&rule.re);
+    match parse(&text, Grammar::Documented) {
+        Some(t) if t == rule.re => {}
+        other => {
+            harness.push(format!("{}#{}: printing `{}` does not parse back to the tree under the documented grammar: {:?}", entry.family, entry.index, text, other));
+            return;
+        }
+    }
+    fn diff_ok(re: &vmodel::spec::Re, env: &Env) -> bool {
+        let mut ok = true;
+        re.visit(&mut |x| {
+            if let vmodel::spec::Re::Diff(a, b) = x {
+                if !is_class_expr(a, env) || !is_class_expr(b, env) {
+                    ok = false;
+                }
+            }
+        });
+        ok
+    }
+    let mut any = false;
+    for g in WRONG.iter() {
+        let name = format!("{:?}", g);
+        match parse(&text, *g) {
+            None => {
+                stats.class("c16_wrong_grammar", &format!("{}: unparseable", name));
+                any = true;
+                stats.inc("nt_C16", 1);
+            }
+            Some(t) if t == rule.re => {
+                stats.class("c16_wrong_grammar", &format!("{}: same tree (not exercised)", name));
+            }
+            Some(t) => {
+                if !diff_ok(&t, &env) {
+                    stats.class("c16_wrong_grammar", &format!("{}: wrong reading would be rejected", name));
+                    any = true;
+                    stats.inc("nt_C16", 1);
+                    continue;
+                }
+                let mut sep = false;
+                for w in inputs_v.iter().take(4000) {
+                    let a = vmodel::matcher::ends(&rule.re, &env, w, 0, false);
+                    let b = vmodel::matcher::ends(&t, &env, w, 0, false);
+                    if a != b {
+                        sep = true;
+                        break;
+                    }
+                }
+                if sep {
+                    stats.class("c16_wrong_grammar", &format!("{}: separated by an input of this run", name));
+                    any = true;
+                    stats.inc("nt_C16", 1);
+                } else {
+                    stats.class("c16_wrong_grammar", &format!("{}: different tree, same language on this run's inputs", name));
+                }
+            }
+        }
+    }
+    if any {
+        stats.inc("nt_C16_definitions", 1);
+        stats.sample("C16", || {
+            J::obj()
+                .with("kind", J::s("minimal printing that a wrong grammar would read differently"))
+                .with("printing", J::s(&text))
+                .with("family", J::s(entry.family))
+                .with("index", J::i(entry.index))
+        });
     }
 }
 
